@@ -588,9 +588,9 @@ def gen_ops(rng: random.Random, n: int, share=lambda x: x):
                 row = rng.choice(store)
                 h, p, fp = row[0], row[1], (row[2] if rng.random() < 0.5 else rng.randint(1, 8))
                 if rng.random() < 0.15:
-                    p = rng.choice(PORTS)
+                    p = rng.choice(PORTS + [0])       # trust / verify / revoke take any port number, 0 included (the command line passes it on)
             else:
-                h, p, fp = rng.choice(hosts), rng.choice(PORTS), rng.randint(1, 8)
+                h, p, fp = rng.choice(hosts), rng.choice(PORTS + [0]), rng.randint(1, 8)
             op = {"kind": kind}
             if kind in ("trust", "verify"):
                 op.update(host=h, port=p, fp=fp)
@@ -697,6 +697,14 @@ class TxnFamily(Family):
         what = op["kind"] + (("-merge" if op["merge"] else "-replace") if op["kind"] == "import" else "")
         if obs["outcome"].startswith("fail") and complete != before:
             return ("failed-op-changed-store", f"{what} raised ({obs['outcome']}) but the store changed: before {before!r}, after {complete!r}")
+        if op["kind"] == "import" and not op["merge"] and obs["outcome"].startswith("ok"):
+            # "exactly as after the operation": what a replace-mode import that SUCCEEDED leaves is the file - every host:port of the
+            # file and nothing else, never an empty or partly filled store
+            want = sorted({(e["host"], e["port"]) for e in op["entries"]})      # a host:port named twice is a conflict inside the file, settled by the callback
+            got = sorted({(r[0], r[1]) for r in complete})
+            if got != want:
+                return ("replace-import-not-the-file", f"{what} succeeded ({obs['outcome']}) on the store {before!r}: the file names {want!r}, the store afterwards holds "
+                                                       f"{got!r} - neither the old store nor the file")
         how = "fault" if self.mode != "raise" or case.get("err") is None else f"fault ({err_text(case['err'])})"
         for k, st in enumerate(obs["crashes"]):
             if st != before and st != complete:
